@@ -198,6 +198,9 @@ func calleeName(c *ssa.CallCommon) string {
 	case *ssa.Builtin:
 		return "builtin:" + f.Name()
 	case *ssa.Function:
+		if n, ok := roleRev[f]; ok && f.Pkg != nil {
+			return f.Pkg.Pkg.Path() + "." + n
+		}
 		return f.String()
 	case *ssa.MakeClosure:
 		return f.Fn.(*ssa.Function).String()
@@ -1054,7 +1057,7 @@ func canonCall(c *ssa.Call) (string, map[int]int) {
 		ident[i] = i
 	}
 	if f.Blocks == nil || f.Pkg == nil || c.Common().IsInvoke() {
-		return f.Name(), ident
+		return roleName(f), ident
 	}
 	var inner *ssa.Call
 	n := 0
@@ -1067,11 +1070,11 @@ func canonCall(c *ssa.Call) (string, map[int]int) {
 		}
 	})
 	if n != 1 {
-		return f.Name(), ident
+		return roleName(f), ident
 	}
 	for i, a := range inner.Common().Args {
 		if i >= len(f.Params) || a != ssa.Value(f.Params[i]) {
-			return f.Name(), ident
+			return roleName(f), ident
 		}
 	}
 	m := map[int]int{}
@@ -1090,17 +1093,17 @@ func canonCall(c *ssa.Call) (string, map[int]int) {
 			_, org := convsBack(r)
 			ex, ok := org.(*ssa.Extract)
 			if !ok || ex.Tuple != ssa.Value(inner) {
-				return f.Name(), ident
+				return roleName(f), ident
 			}
 			if j, seen := m[i]; seen && j != ex.Index {
-				return f.Name(), ident
+				return roleName(f), ident
 			}
 			m[i] = ex.Index
 			okAny = true
 		}
 	}
 	if !okAny {
-		return f.Name(), ident
+		return roleName(f), ident
 	}
 	name, innerMap := canonCall(inner)
 	out := map[int]int{}
